@@ -15,6 +15,9 @@ type chanCase interface {
 	// perform completes the case now; must only be called when ready.
 	perform(t *thread, i int)
 	describe() string
+	// viaPartner returns the pending thread this case's readiness rests on alone
+	// (unbuffered rendezvous with a managed partner), nil otherwise.
+	viaPartner(t *thread) *thread
 }
 
 func chanID[T any](ch chan T) uintptr {
@@ -113,6 +116,13 @@ func (c *RCase[T]) ready(t *thread, i int) bool {
 	return false
 }
 
+func (c *RCase[T]) viaPartner(t *thread) *thread {
+	if c.stashed || c.ch == nil || len(c.ch) > 0 || cap(c.ch) != 0 || s.closed[c.cid] {
+		return nil
+	}
+	return findPartner(t, c.cid, true)
+}
+
 func (c *RCase[T]) perform(t *thread, i int) {
 	if c.stashed {
 		return
@@ -167,6 +177,13 @@ func (c *SCase[T]) ready(t *thread, i int) bool {
 		return true
 	}
 	return false
+}
+
+func (c *SCase[T]) viaPartner(t *thread) *thread {
+	if c.sent || c.ch == nil || cap(c.ch) != 0 || s.closed[c.cid] {
+		return nil
+	}
+	return findPartner(t, c.cid, false)
 }
 
 func (c *SCase[T]) perform(t *thread, i int) {
@@ -328,6 +345,23 @@ func Select(hasDefault bool, cases ...Case) int {
 		if c != nil {
 			s.acc(t, c.id(), false)
 		}
+	}
+	if hasDefault && !s.noMaybeParked {
+		// A partner that is merely pending at its blocking operation counts as parked in
+		// this model, but for real it may not have queued itself on the channel yet: no
+		// happens-before edge makes it so unless time has passed or the harness waited for
+		// quiescence since.  A non-blocking operation is the only observer of the
+		// difference, so it gets the other answer as a deviation.
+		kept := ready[:0]
+		for _, i := range ready {
+			if pt := cs[i].viaPartner(t); pt != nil && pt.pend != nil && pt.pend.parkEpoch == s.parkEpoch {
+				if s.envChoice(2, 1) == 1 {
+					continue
+				}
+			}
+			kept = append(kept, i)
+		}
+		ready = kept
 	}
 	if len(ready) == 0 {
 		if hasDefault {
